@@ -1087,7 +1087,7 @@ def rule_H(toks, au, h, lockflags=False, fname=None):
                     x.ws = " "
             toks[k:k] = ins
             au.note("H", f"{t.text}(…, {h.fxarg})")
-            i = k + len(ins)
+            i = i + 2      # go on INSIDE the argument list: nested effectful calls get their log argument too
             continue
         if is_p(t, ".") and toks[i + 1].kind == "id" and is_p(toks[i + 2], "("):
             name = toks[i + 1].text
